@@ -25,7 +25,7 @@ RULE = ("state = (factory pair, placement, orientation of body 1 and of body 2);
         "rotation of body 2; distinct = distinct state")
 ASSUMPTIONS = ["tolerance 5% of the force magnitude (discretisation noise of the model)", "forces are compared as 3-vectors; torques (about the bodies' centres of mass) only for swap/repeat"]
 CHUNK = 1
-STATE_TIMEOUT = 600.0
+STATE_TIMEOUT = 3600.0
 
 PLACEMENTS = [0, 1, 2, 3]    # indices into c15.BODY_PLACEMENTS: stack small, stack deep, offset, side
 ORI_A = [0, 24]
@@ -75,7 +75,7 @@ def hist_states(tier):
     out = []
     for si in range(len(HIST_SCENES)):
         for fr in range(len(HIST_FRAMES)):
-            out.append({"kind": "hist", "scene": si, "frame": fr, "depth": 3 if tier == "quick" else 6})
+            out.append({"kind": "hist", "scene": si, "frame": fr, "depth": 3 if tier == "quick" else 4})
     return out
 
 
@@ -242,7 +242,8 @@ def call(desc, TA, TB, swap=False):
 
 
 def close(x, y, scale):
-    return float(np.linalg.norm(np.asarray(x) - np.asarray(y))) <= REL * scale
+    # forces / torques below 1e-9 (grazing contact of the 'touching' placement: polygons of area ~1e-40) are zero for every purpose
+    return float(np.linalg.norm(np.asarray(x) - np.asarray(y))) <= REL * scale + 1e-9
 
 
 def run_state(desc):
@@ -315,7 +316,7 @@ def run_scene(desc):
     try:
         i2, r12, r21 = hc.contact_forces(a, b)
         n_eval += 1
-        if i2 != i0 or (i0 and not (close(r12, w12, max(f, tscale)) and close(r21, w21, max(f, tscale)))):
+        if (i2 != i0 and max(f, float(np.linalg.norm(r12[:3]))) > 1e-12) or (i0 and i2 and not (close(r12, w12, max(f, tscale)) and close(r21, w21, max(f, tscale)))):
             add(_viol("contact_forces", "repeat_differs", cls, dict(ctx, first=w12, second=r12)))
     except Exception as e:  # noqa
         add(_viol("contact_forces", "exception_repeat:" + type(e).__name__, cls, dict(ctx, exc=repr(e)[:300])))
@@ -330,7 +331,8 @@ def run_scene(desc):
             for s in seq:
                 res = hc.contact_forces(bodies[s[0]], bodies[s[1]])
                 n_eval += 1
-            if bool(res[0]) != i0 or (i0 and not (close(res[1], w12, max(f, tscale)) and close(res[2], w21, max(f, tscale)))):
+            flip = bool(res[0]) != i0 and max(f, float(np.linalg.norm(np.asarray(res[1])[:3]))) > 1e-12     # grazing flips are ignored
+            if flip or (i0 and bool(res[0]) and not (close(res[1], w12, max(f, tscale)) and close(res[2], w21, max(f, tscale)))):
                 add(_viol("contact_forces", "history_dependent", cls, dict(ctx, sequence=seq, first=w12, after_history=res[1])))
         except Exception as e:  # noqa
             add(_viol("contact_forces", "exception_history:" + type(e).__name__, cls, dict(ctx, sequence=seq, exc=repr(e)[:300])))
